@@ -92,10 +92,10 @@ REGISTRY = {
     "C03": {
         "title": "any crash leaves a file that reopens to authentic, untorn, recent contents",
         "teq": [
-            {"engine": "crash", "quick": {"n": 1, "points": 12, "hostile": 1, "seedoff": 3}, "thorough": {"tier": "thorough", "hostile": 1, "seedoff": 3}, "oracle": True, "mismatch_is_failure": False, "timeout": 3400,
+            {"engine": "crash", "quick": {"n": 1, "points": 12, "hostile": 1, "bulkdel": 1, "seedoff": 3}, "thorough": {"tier": "thorough", "hostile": 1, "bulkdel": 1, "seedoff": 3}, "oracle": True, "mismatch_is_failure": False, "timeout": 3400,
              "nontrivial": lambda case, res: "plan=" in case and not case.endswith("none") and res.startswith("ok") and "keys=-" not in res,
              "distinct_key": lambda case, res: res,
-             "what": "as C02, with hostile values: multi-block values whose later blocks are byte-exact retirement markers (valid marker token for a plausible sector) or record heads of other keys with far-future timestamps stamped with a valid token"},
+             "what": "as C02, with hostile values: multi-block values whose later blocks are byte-exact retirement markers (valid marker token for a plausible sector) or record heads of other keys with far-future timestamps stamped with a valid token; plus one directed workload (recipe bulkdel) whose single flush retires about 1150 non-adjacent extents -- more than one allocation-journal transaction names -- with the monitor on its device history and crash images inside each retirement transaction (everything in flight written, the highest in-flight write torn)"},
         ],
         "nontrivial_rule": "as C02",
         "assumptions": ["as C02"],
